@@ -155,7 +155,7 @@ def gen_sched(g):
         meth = rng.choice(gen.POSITIONAL_METHODS)
         p = rng.choice(paths)
         li, ch = rand_pos(p)
-        op = gen.positional(ids.next(), meth, p, li, ch)
+        op = gen.positional(ids.next(), meth, p, li, ch, rng=rng)
         if swarm["badparams"] and rng.random() < 0.25:
             op["m"]["params"]["position"] = bad_position(rng)
             if meth.endswith("codeAction"):
